@@ -36,7 +36,25 @@ type c30case struct {
 }
 
 var c30mutations = []string{"flip-payload-byte", "chunk-size-digit", "final-chunk-size-digit", "chunk-signature-digit", "trailer-value", "trailer-name",
-	"trailer-signature", "drop-trailer", "drop-final-chunk", "truncate-at-chunk-boundary"}
+	"trailer-signature", "drop-trailer", "drop-final-chunk", "truncate-at-chunk-boundary", "chunk-size-digit-up"}
+
+// c30TailLen is the number of framing bytes that follow the payload of a
+// single-chunk upload (CRLF, terminating chunk, trailer section); it does not
+// depend on the payload.
+func c30TailLen(mode, trailer string) int {
+	l := encodeChunked(streamConst(mode), []byte{1}, 0, trailer, []byte("k"), "20260101T000000Z", "20260101/r/s3/aws4_request", strings.Repeat("0", 64))
+	return len(l.Body) - l.Data[0].Hi
+}
+
+// c30AlignedLens: payload lengths of a single-chunk upload for which the bytes
+// that follow the first chunk header end exactly on a buffer boundary of the
+// consumers below the decoder (io.Copy's 32 KiB, the SQL part store's 128 KiB
+// then 256 KiB chunks): when the chunk claims more bytes than the body holds,
+// the decoder's next read then starts exactly at end-of-body.
+func c30AlignedLens(mode, trailer string) []int {
+	t := c30TailLen(mode, trailer)
+	return []int{32*1024 - t, 128*1024 - t, (128+256)*1024 - t}
+}
 
 // c30mut returns the body edit for a mutation kind, or nil if it does not apply to the mode/shape.
 func c30mut(kind string, c c30case) streamMut {
@@ -67,6 +85,23 @@ func c30mut(kind string, c c30case) streamMut {
 			s, rg := pick(l, l.SizeDigits[:len(l.SizeDigits)-1]) // a data chunk's size field
 			i := s.Lo + rg.Intn(s.Hi-s.Lo)
 			b[i] = flipHexDigit(b[i])
+			return b
+		}
+	case "chunk-size-digit-up":
+		// the first data chunk claims more bytes than the body holds
+		if c.PayloadLen == 0 {
+			return nil
+		}
+		return func(l *chunkLayout) []byte {
+			b := cp(l)
+			s := l.SizeDigits[0]
+			for i := s.Lo; i < s.Hi; i++ {
+				if b[i]|0x20 != 'f' {
+					b[i] = 'f'
+					return b
+				}
+			}
+			b[s.Lo] = 'e' // all digits were f: shrink instead (still a modified chunk)
 			return b
 		}
 	case "final-chunk-size-digit":
@@ -500,6 +535,28 @@ func runC30(tier, replay string) {
 						}
 						e.run(c)
 					}
+				}
+			}
+		}
+	}
+	// the chunk-size-digit-up mutation on payload lengths aligned to the consumers' read buffers
+	for _, cfg := range configs {
+		for mi, mode := range streamModes {
+			if (cfg == cfgAuthAnon && mode != modeStrUT) || !baselineOK[cfg+"|"+mode] {
+				continue
+			}
+			trailer := ""
+			if mode != modeStrS {
+				trailer = trailerAlgs[mi%len(trailerAlgs)]
+			}
+			for li, plen := range c30AlignedLens(mode, trailer) {
+				if r.Quick() && li == 2 && cfg != cfgAuthOn {
+					continue
+				}
+				for _, op := range []string{"PutObject", "UploadPart"} {
+					n++
+					e.run(c30case{Config: cfg, Mode: mode, Trailer: trailer, PayloadLen: plen, PayloadSeed: rng.Uint64(), ChunkSize: 0, N: n, Op: op, Mutation: "chunk-size-digit-up", MutSeed: rng.Uint64()})
+					r.Count("mutations_on_buffer_aligned_payloads", 1)
 				}
 			}
 		}
